@@ -54,7 +54,7 @@ def gen_values(rng, n, nan_p=0.1, style=None):
     return out
 
 
-def gen_table(rng, max_n=40, nsids=None, axes_p=(0.65, 0.5), index_kinds=None, n=None, no_time_p=0.0):
+def gen_table(rng, max_n=40, nsids=None, axes_p=(0.65, 0.5), index_kinds=None, n=None, no_time_p=0.0, unsorted_p=0.0):
     n = gen_n(rng, max_n) if n is None else n
     k = nsids or rng.weighted([(1, 4), (2, 4), (3, 2)])
     tbl = {
@@ -90,6 +90,15 @@ def gen_table(rng, max_n=40, nsids=None, axes_p=(0.65, 0.5), index_kinds=None, n
         tbl["index"]["perm"] = perm
     if kind == "offset":
         tbl["index"]["start"] = rng.pick((1, 7, 100))
+    if unsorted_p and n >= 2 and rng.chance(unsorted_p):
+        # rows not in chronological order (a merged or re-transmitted record); still no repeated instant
+        t = tbl["times"]
+        for _ in range(rng.randint(1, max(1, n // 3))):
+            i, j = rng.randrange(n), rng.randrange(n)
+            t[i], t[j] = t[j], t[i]
+        tbl["unsorted"] = t != sorted(t)
+        if tbl["index"]["kind"] == "datetime":
+            tbl["index"] = {"kind": "range"}
     if rng.chance(0.2):
         # other column dtypes (integers cannot hold NaN: only columns without missing values)
         dt = {}
@@ -123,6 +132,7 @@ def boundary_points(rng, times):
     if not times:
         b = rng.pick(T_BASES)
         return [b - 10, b, b + 10, b + 86400]
+    times = sorted(times)
     pts = {times[0] - rng.pick((1, 3600, 86400)), times[-1] + rng.pick((1, 3600, 86400))}
     for i, t in enumerate(times):
         pts.add(t)
